@@ -129,16 +129,23 @@ theorem complaint_lifted_only_by_justification (cfg : Cfg) (nd : Node) (op : Op)
   · rw [h1 a h] at hb; cases hb
   · exact h3
 
+/-- An honest dealer announces the session identifier its deal yields. -/
+theorem honestDeal_sidBound (cfg : Cfg) (sid t : Nat) (f g : List Nat) (i : Nat) :
+    sidBound cfg (honestDeal cfg sid t f g i) = true := by
+  simp [sidBound, honestDeal]
+
 /-! ### 4. A verifier approves a deal iff all coded conditions hold -/
 
 /-- The conditions under which a verifier approves, as coded. -/
 def DealAcceptable (cfg : Cfg) (me : Nat) (d : Deal) : Prop :=
-  d.i = me ∧ validT d.t cfg.n = true ∧ (cfg.variant = .rabin → d.i = d.ri) ∧ d.i < cfg.n ∧ shareOk cfg d = true
+  d.i = me ∧ validT d.t cfg.n = true ∧ (cfg.variant = .rabin → d.i = d.ri) ∧ d.i < cfg.n ∧ shareOk cfg d = true ∧
+    sidBound cfg d = true
 
 /-- **Approval is sound in every state.** Whatever a verifier has processed before, it answers an
 encrypted deal with an approval only if the dealer's signature on the DH key verified, the AEAD opened
 for this verifier, the share index is the verifier's own, the threshold is in `[2,n]`, (R) both shares
-carry the same index, and the share lies on the committed polynomial. In every other case the outcome
+carry the same index, the share lies on the committed polynomial, and (repaired code) the deal announces the
+session identifier its content yields. In every other case the outcome
 is a complaint or an error (the outcome type has nothing else that yields a response). -/
 theorem approve_sound (cfg : Cfg) (nd : Node) (sg opn : Bool) (d : Deal)
     (h : (step cfg nd (.encDeal sg opn d)).2 = .approve) :
@@ -160,9 +167,9 @@ theorem approve_sound (cfg : Cfg) (nd : Node) (sg opn : Bool) (d : Deal)
         · cases h
         · rename_i hidx
           simp only at h
-          obtain ⟨_, h2, _, _⟩ := (processDealOn_approve_iff cfg me (baseAgg agg d) d).mp h
+          obtain ⟨_, h2, _, _, hsb⟩ := (processDealOn_approve_iff cfg me (baseAgg agg d) d).mp h
           obtain ⟨c1, _, _, c4, c5, c6⟩ := (checkDeal_eq_none_iff cfg _ d).mp h2
-          refine ⟨me, rfl, by simpa using hsg, by simpa using hop, ?_, c1, c4, c5, c6⟩
+          refine ⟨me, rfl, by simpa using hsg, by simpa using hop, ?_, c1, c4, c5, c6, hsb⟩
           simpa using hidx
 
 /-- **Approval, exactly.** A fresh verifier `me < n` approves the deal it decrypts iff the dealer's
@@ -177,7 +184,7 @@ theorem approve_iff_fresh (cfg : Cfg) (me : Nat) (sg opn : Bool) (d : Deal) :
       unfold newVerifier at h1; simp only [Role.verifier.injEq] at h1; exact h1.symm
     subst this
     exact ⟨h2, h3, h4⟩
-  · rintro ⟨rfl, rfl, h1, h2, h3, h4, h5⟩
+  · rintro ⟨rfl, rfl, h1, h2, h3, h4, h5, h6⟩
     have hme : me < cfg.n := h1 ▸ h4
     have hne : (d.i != me) = false := by simp [h1]
     have key : ∀ agg0 : Option Agg,
@@ -186,11 +193,11 @@ theorem approve_iff_fresh (cfg : Cfg) (me : Nat) (sg opn : Bool) (d : Deal) :
       intro agg0 h
       rw [processDealOn_approve_iff, checkDeal_eq_none_iff]
       rcases h with ⟨rfl, hv⟩ | ⟨rfl, hv⟩
-      · refine ⟨rfl, ⟨h2, fun _ => ?_, ?_, fun h => ?_, h4, h5⟩, hme, rfl⟩
+      · refine ⟨rfl, ⟨h2, fun _ => ?_, ?_, fun h => ?_, h4, h5⟩, hme, rfl, h6⟩
         · simp [baseAgg, adopt, hv]
         · simp [baseAgg, adopt]
         · rw [hv] at h; cases h
-      · refine ⟨rfl, ⟨h2, fun h => ?_, ?_, fun _ => h3 hv, h4, h5⟩, hme, rfl⟩
+      · refine ⟨rfl, ⟨h2, fun h => ?_, ?_, fun _ => h3 hv, h4, h5⟩, hme, rfl, h6⟩
         · rw [hv] at h; cases h
         · simp [baseAgg, aggOfDeal, adopt]
     have hstep : ∀ agg0, (step cfg ⟨.verifier me, agg0⟩ (.encDeal true true d)).2 =
@@ -205,7 +212,7 @@ theorem approve_iff_fresh (cfg : Cfg) (me : Nat) (sg opn : Bool) (d : Deal) :
 /-- … in particular only if its share lies on the committed polynomial (identity in `ZMod q`). -/
 theorem approve_on_committed (cfg : Cfg) (hq : 0 < cfg.q) (nd : Node) (sg opn : Bool) (d : Deal)
     (h : (step cfg nd (.encDeal sg opn d)).2 = .approve) : OnCommitted cfg d := by
-  obtain ⟨_, _, _, _, _, _, _, _, h5⟩ := approve_sound cfg nd sg opn d h
+  obtain ⟨_, _, _, _, _, _, _, _, h5, _⟩ := approve_sound cfg nd sg opn d h
   exact (shareOk_iff_onCommitted cfg hq d).mp h5
 
 /-- Conversely a deal whose share is off the committed polynomial is never approved, in any state. -/
@@ -299,6 +306,19 @@ theorem certified_without_deal_as_coded :
     certified { cfg with strict := true } (run { cfg with strict := true } (newVerifier cfg 0) [.setTimeout]) = false := by
   decide
 
+/-- **Third defect of the unrepaired code, inside the model**: a self-consistent deal that announces the
+session identifier of ANOTHER deal (`sid ≠ csid`: an equivocating dealer labels the shares of a second
+polynomial with the first one's identifier) is approved, so responses about different commitments share one
+identifier and are counted together; the repaired code answers with a complaint
+(fixes/C10-deal-session-binding.patch). -/
+theorem deal_session_unbound_as_coded :
+    let cfg : Cfg := { variant := .pedersen, n := 3, q := 11, h := 0, strict := false }
+    let d : Deal := { sid := 1, i := 0, v := 3, ri := 0, rv := 0, t := 2, commits := [3, 0], csid := 2 }
+    (step cfg (newVerifier cfg 0) (.encDeal true true d)).2 = .approve ∧
+    (step { cfg with strict := true } (newVerifier cfg 0) (.encDeal true true d)).2 = .complain ∧
+    (step { cfg with strict := true } (newVerifier cfg 0) (.encDeal true true { d with csid := 1 })).2 = .approve := by
+  decide
+
 /-! ### 6. Honest run ⇒ everybody approves ⇒ certified -/
 
 /-- **Honest run ⇒ approve ⇒ certified.** An honest dealer (secret polynomial `f`, R: blinding
@@ -313,7 +333,7 @@ theorem honest_run_certified (cfg : Cfg) (hq : 0 < cfg.q) (me t sid : Nat) (f g 
     certified cfg (run cfg (newVerifier cfg me)
       (.encDeal true true (honestDeal cfg sid t f g me) :: js.map (fun j => Op.response sid j true true))) = true := by
   have hacc : DealAcceptable cfg me (honestDeal cfg sid t f g me) :=
-    ⟨rfl, hT, fun _ => rfl, hme, honestDeal_shareOk cfg hq sid t f g hlen me⟩
+    ⟨rfl, hT, fun _ => rfl, hme, honestDeal_shareOk cfg hq sid t f g hlen me, honestDeal_sidBound cfg sid t f g me⟩
   have happ := (approve_iff_fresh cfg me true true _).mpr ⟨rfl, rfl, hacc⟩
   refine ⟨happ, ?_⟩
   -- the state after the deal
@@ -342,7 +362,8 @@ theorem honest_run_certified (cfg : Cfg) (hq : 0 < cfg.q) (me t sid : Nat) (f g 
         exact h5 hv
       · simp [adopt, h4, honestDeal]
       · simp [adopt, h4]
-      · intro p hp; simp only [List.mem_singleton] at hp; subst hp; rfl
+      · intro p hp; simp only [List.mem_singleton] at hp; subst hp
+        simp [honestDeal_sidBound cfg sid t f g me]
       · exact ⟨by simp, by intro p hp; simp only [List.mem_singleton] at hp; subst hp; exact hme⟩
     unfold newVerifier
     rw [hstep]
@@ -350,7 +371,7 @@ theorem honest_run_certified (cfg : Cfg) (hq : 0 < cfg.q) (me t sid : Nat) (f g 
         checkDeal cfg (adopt cfg a0 (honestDeal cfg sid t f g me)) (honestDeal cfg sid t f g me) = none := by
       intro a0 h4 h5
       rw [checkDeal_eq_none_iff]
-      refine ⟨hT, ?_, ?_, fun _ => rfl, hme, hacc.2.2.2.2⟩
+      refine ⟨hT, ?_, ?_, fun _ => rfl, hme, hacc.2.2.2.2.1⟩
       · intro hv; simp [adopt, h4, hv, honestDeal]
       · simp [adopt, h4, honestDeal]
     cases hv : cfg.variant with
